@@ -31,6 +31,11 @@ CHECKS = {
             "Every component that writes up to 3/4 chunks of sizes {1,100,5000} and then fails or succeeds (directly or nested under templ.Join) x status {unset,200,201,404} x 3 content types x 5 error-handler shapes (unset, status+body, body only, nothing, own content type) x buffered/streamed, each followed by three further renders over the shared buffer pool. A recording ResponseWriter captures committed status, headers at commit time, number of WriteHeader calls and body. Buffered oracle: success = exact status/content type/full document; failure = no document byte, default 500 message or exactly what the error handler alone writes, handler receives the cause.",
             "Streaming configurations are recorded for contrast only. An error handler that writes a body without a status chooses its own implicit 200.",
             "4.11", "enum"),
+    "C18": ("model_checking",
+            "bounded exhaustive chunking/malformed-input enumeration on the real streams + stateless schedule exploration (vsched, preemption-bounded, state caching) of the real overlay-rewritten Conn",
+            "Framing: every message sequence up to 2/3 of 7 message kinds (numeric and string ids, notifications with/without params, result and error responses, multi-byte payload) written by the real NewStream/NewRawStream and read back through readers cut at every offset, every pair of offsets (sequences up to 2) and fixed chunks of 1..7 bytes; an independent frame parser checks that the length header counts bytes; every malformed token string up to 4/5 over 17 header/body tokens must yield an error or a message, never a panic, nil or endless stream. Matching: lsp/jsonrpc2 is AST-rewritten at check time onto vsched primitives; scenarios with 2-3 callers, notifiers, a canceller and a peer that answers in any order (explorer choice), after all calls arrived, with interleaved notifications, twice, or never; every schedule with at most 2/3 deviations: frames seen by the peer are whole and contiguous, every Call returns the echo of its own params or its own context error, nothing is stuck once its answer was sent, pending map empty and Done() closed after Close (private map read through an overlay-added accessor).",
+            "Atomic steps = code between synchronisation operations and pipe reads/writes; peer sends whole frames; gigabyte Content-Length values excluded; state-key completeness as in C19.",
+            "4.18", "enum+vsched"),
     "C19": ("model_checking",
             "stateless schedule exploration (hand-rolled cooperative scheduler + DFS with iterative preemption bounding and state caching) of the real, overlay-rewritten SSE handler",
             "The sse package is rewritten at check time from /repo's current sources (chan/select/go/close/map-range/sync/time onto vsched primitives, by AST, under go build -overlay) so that every mutex, channel, select, spawn, timer and map-iteration decision is an explorer choice. Scenarios: 2 clients x 1 or 2 back-to-back broadcasts x concurrent disconnect, a ping falling due, a stalled reader, a late joiner (thorough: 3 clients, 2 disconnects, combinations). Every schedule with at most 2 (quick) / 3 (thorough) preemptions / non-default environment answers is executed; states already expanded with at least the same remaining budget are not re-expanded (state key = threads' control points + shim objects + writer contents; reduction self-checked against uncached exploration). Oracle: no panic, no deadlock, Send returns without waiting for any client, every client connected during a broadcast and staying receives every reload, handlers return after cancellation.",
